@@ -38,13 +38,14 @@ def orderContainers : List (String × String) := [
 ]
 
 /-- classification of every walk (all are order-free as all/any/sum/map/in-place updates or
-    size<=1 accesses, except: is_less_than/is_greater_than (first deciding component - C19.lt_balance_order_leaks),
-    xact_base_t::finalize (first two entries - C19.finalize_order_free), sorted_amounts (sorted afterwards -
+    size<=1 accesses, except: xact_base_t::finalize (first two entries - C19.finalize_order_free), sorted_amounts (sorted afterwards -
     C19.sortedAmounts_perm), operator+= and operator-= on balances (determine only the insertion order of another balance),
     strip_annotations (lots of one base commodity merge: exact sums, but the FIRST lot's keep_precision flag wins -
     C19.strip_annotations_order_leaks), dump (debug only), average_lot_prices (exact sums per symbol - but when the lot prices of one
     symbol are in two commodities `+` throws and the error text names the pair met first: order-dependent stderr,
-    found and localised by the runtime part of tools/props/c19.py, not modelled)). -/
+    found and localised by the runtime part of tools/props/c19.py, not modelled)).
+    value_t::is_less_than / is_greater_than no longer walk the hash map (89c0598: they walk sorted_amounts; the old
+    walk is C19.lt_balance_order_leaks, the new one C19.lt_balance_order_free), so they left this list. -/
 def amountsWalks : List (String × String) := [
   ("balance.cc:balance_t::operator+=", "foreach*1"),
   ("balance.cc:balance_t::operator-=", "foreach*1"),
@@ -78,8 +79,6 @@ def amountsWalks : List (String × String) := [
   ("filters.cc:changed_value_posts::output_intermediate_prices", "foreach*1"),
   ("report.cc:report_t::fn_verif_rational", "foreach*1"),
   ("report.cc:report_t::fn_nail_down", "foreach*1"),
-  ("value.cc:value_t::is_less_than", "foreach*1"),
-  ("value.cc:value_t::is_greater_than", "foreach*1"),
   ("value.cc:value_t::in_place_cast", "begin*1"),
   ("value.cc:value_t::exchange_commodities", "foreach*1"),
   ("xact.cc:xact_base_t::finalize", "begin*1")
